@@ -9,6 +9,7 @@ fn main() {
         Some("selftest") => scv::selftest::main(&args[1..]),
         Some("gen-c17-corpus") => scv::selftest::gen_c17_corpus(&args[1..]),
         Some("gen-corpus") => scv::selftest::gen_corpus(&args[1..]),
+        Some("gen-work-corpus") => scv::selftest::gen_work_corpus(&args[1..]),
         Some("fresh") => scv::selftest::fresh(&args[1..]),
         Some("probe") => scv::selftest::probe(&args[1..]),
         _ => {
